@@ -330,3 +330,35 @@ Example C02_success_hypotheses_met :
      ("ConfigMap/hk", [("d:h", "0")])]%string.
 Proof. exact success_example. Qed.
 Print Assumptions C02_success_hypotheses_met.
+
+(* Known finding K1-C02 (consequence of K1 of C01, reproduced on the real code, witness in the
+   harness corpus): install --replace while a revision is still deployed succeeds and leaves a
+   resource of the deployed revision that the new manifest does not name — there is no
+   "removed resources are gone" clause for install, and this is why. *)
+Theorem C02_install_replace_over_deployed_leaks_refuted :
+  exists (w : world) (c : opcase) (d : release) (r : res),
+    fault_free c /\ In d (w_led w) /\ st d = SDeployed /\ In r (manifest d) /\
+    let '(w', out, _) := run_store_op "rel" "default" c w in
+    out = OOk /\
+    (exists fl cid vid mani hks, oc_op c = OpInstall fl cid vid mani hks /\ in_keys (rkey r) mani = false) /\
+    (exists live, aget (rkey r) (w_objs w) = Some live /\ live_keep live = false) /\
+    aget (rkey r) (w_objs w') <> None.
+Proof. exact install_replace_over_deployed_leaks. Qed.
+Print Assumptions C02_install_replace_over_deployed_leaks_refuted.
+
+(* Known finding K6-C02 (same root cause as K6 of C03; reproduced on the real code without any
+   injected fault, witness in the harness corpus): rollback diffs the target against the LATEST
+   revision even when that one failed and was never applied, not against the deployed one; a
+   resource that only the deployed revision has survives a successful rollback to an older
+   revision.  C02_rollback_success_matches is accordingly stated for [cur] = the latest revision. *)
+Theorem C02_rollback_over_failed_revision_leaks_refuted :
+  exists (w : world) (c : opcase) (d : release) (r : res),
+    fault_free c /\ In d (w_led w) /\ st d = SDeployed /\ In r (manifest d) /\
+    let '(w', out, _) := run_store_op "rel" "default" c w in
+    out = OOk /\
+    (exists fl cur pr, oc_op c = OpRollback fl /\ rollback_target fl (w_led w) = Some (cur, pr) /\
+                       st cur = SFailed /\ in_keys (rkey r) (manifest pr) = false) /\
+    (exists live, aget (rkey r) (w_objs w) = Some live /\ live_keep live = false) /\
+    aget (rkey r) (w_objs w') <> None.
+Proof. exact rollback_over_failed_revision_leaks. Qed.
+Print Assumptions C02_rollback_over_failed_revision_leaks_refuted.
